@@ -2,7 +2,7 @@ SPECIFICATION Spec
 CONSTANTS
   NUnits = 2
   States = {"S1", "S2"}
-  Counties = {"c1", "c2"}
+  Counties = {"c1"}
   Classes = {"k1"}
   Districts = {"d1"}
   Policies = {"drop", "zero"}
@@ -10,15 +10,10 @@ CONSTANTS
   LevelLists <- LL_All
   BlockLists <- BL_All
   AllowMismatch = FALSE
-  Export = FALSE
+  Export = TRUE
   WithOutputs = FALSE
+CONSTRAINT ExportDone
 INVARIANT EveryUnitOnce
 INVARIANT UnitVotesConserved
 INVARIANT Conservation
-INVARIANT LevelsSumToFeed
-INVARIANT NoKeyLost
-INVARIANT ReportingIsModelled
-INVARIANT Eligibility
-INVARIANT LevelsAgree
-INVARIANT GroupFloors
 CHECK_DEADLOCK FALSE
